@@ -901,9 +901,8 @@ func init() {
 			asB = assignments(1, 4, allProfiles)
 			asC = assignments(1, 3, allProfiles)
 		} else {
-			for _, s := range fourStrategies {
-				cfgsB = append(cfgsB, selCfg{s, 0.01, weightSets[0], 0}, selCfg{s, 0, weightSets[0], 1})
-			}
+			cfgsB = []selCfg{{fourStrategies[0], 0.01, weightSets[0], 0}, {fourStrategies[1], 0, weightSets[0], 1},
+				{fourStrategies[2], 0.01, weightSets[0], 1}, {fourStrategies[3], 0, weightSets[0], 0}}
 			asB = append(assignments(1, 3, allProfiles), assignments(4, 4, fourProfiles)...)
 			asC = assignments(1, 3, fourProfiles)
 		}
@@ -925,9 +924,9 @@ func init() {
 			if thorough {
 				return true
 			}
-			for _, s := range fourStrategies {
+			for i, s := range fourStrategies {
 				if s == c.strat {
-					return true
+					return c.adaptive == (i%2 == 0)
 				}
 			}
 			return false
